@@ -145,7 +145,13 @@ class C14(Check):
                  'under PYTHONHASHSEED 0/1/2')
     rule = ('set layers: one case per (example set, option point), all n! '
             'orders + dict/zero-count dict/Series/categorical/two-Series forms '
-            '+ bytes+encoding list and dict forms + (default options) every '
+            '+ bytes+encoding list and dict forms + tuple, generator, '
+            'Counter, OrderedDict, dict.keys() view, bytes dict with a '
+            'zero-count entry + under 1-2 of 3 pruning option points '
+            '(min_strings_per_pattern, max_patterns) the same multiset WITH '
+            'repeats as list, reversed list, dict, Counter, zero-count dict, '
+            'bytes list, bytes dict, bytes zero-count dict (form equality '
+            'only, no repeat invariance) + (default options) every '
             'pandas form: object, str and string dtype, non-default integer '
             'and string index, categorical with categories == values, with '
             'one unused category first, two unused last (ordered), after '
@@ -179,8 +185,18 @@ class C14(Check):
         'strings over the alphabets in mc/rex14_alphabet.py (<= 3 characters '
         'plus a list of structured examples); sets of <= 3 (quick) / <= 4 '
         '(thorough) distinct examples; 8 option points; pruning options '
-        '(max_patterns, min_strings_per_pattern) excluded because they make '
-        'frequency matter by design',
+        '(max_patterns, min_strings_per_pattern) make frequency matter by '
+        'design: under them only the clauses that keep the multiset fixed '
+        '(order, list / dict / Counter / bytes forms, zero-count entries) '
+        'are checked, not repeat invariance; in the pairs layer with default '
+        'options the pruning points are applied to pairs over the 40-string '
+        'options alphabet',
+        'garbage collection is an owned event: the automatic collector is '
+        'off inside a case and gc.collect() runs at the start of the case, at '
+        'every from-scratch reset and in the probe after each seeded call '
+        '(the caller draws a number, gc.collect(), the generator must not '
+        'have moved) - "the state is the same after the call as before it" '
+        'is read as: and the call does not change it later either',
         'seeded sampled calls: order invariance is checked on the reversed '
         'and the rotated input (sets of 3-6 examples); the signature says '
         'whether the differing results leave examples unmatched (then the '
@@ -396,15 +412,18 @@ class C14(Check):
         finally:
             gc.enable()
 
-    def gc_probe(self, R, before, detail, sub):
+    def gc_probe(self, R, before, detail, sub, holder=None):
         """'the state of the global generator is the same after the call as
         before it' - and stays what the caller makes of it: the caller draws
         a number, then whatever the seeded call left behind is finalised
-        (gc.collect()); the generator must not move.  `before` = the state
-        before the seeded call (names the jump in the signature)."""
+        (the Extractor returned under as_object=True, held in `holder`, is
+        dropped; gc.collect()); the generator must not move.  `before` = the
+        state before the seeded call (names the jump in the signature)."""
         rnd = self.random
         rnd.random()
         mark = rnd.getstate()
+        if holder is not None:
+            del holder[:]           # the caller drops the returned object
         self.gc.collect()
         now = rnd.getstate()
         R.ev(0, checked=1)
@@ -448,7 +467,8 @@ class C14(Check):
         n = len(xs)
         pd = self.pd
         self.reset()
-        base = self.ex(list(xs), opts)
+        given = list(xs)
+        base = self.ex(given, opts)
         R.ev()
         R.nontrivial = n >= 2 and len(base) > 0 and base[0] != '!exception'
         sh = AB.shapes(xs)
@@ -489,7 +509,9 @@ class C14(Check):
                        family if opts is AB.OPTIONS[o] else
                        [family, sorted(opts.items() - AB.OPTIONS[o].items())])
 
-        cmp('repeat-call', self.ex(list(xs), opts), xs)
+        # repeated call, with the very list object of the first call
+        cmp('repeat-call', self.ex(given, opts),
+            {'the list object of the first call, now': list(given)})
         for p in itertools.permutations(range(n)):
             if list(p) == list(range(n)):
                 continue
@@ -583,7 +605,19 @@ class C14(Check):
         for pre in (100, 200):
             rnd.seed(pre)
             before = rnd.getstate()
-            seeded.append(self.ex(list(xs), opts, seed=1))
+            holder = None
+            if pre == 100:
+                seeded.append(self.ex(list(xs), opts, seed=1))
+            else:
+                # the same through as_object=True, the caller keeping the
+                # Extractor for a while
+                holder = []
+
+                def keep():
+                    holder.append(self.rexpy.extract(
+                        list(xs), as_object=True, seed=1, **opts))
+                    return holder[0]
+                seeded.append(self.call(keep))
             R.ev()
             if rnd.getstate() != before:
                 R.out('differs:seeded-state')
@@ -595,15 +629,17 @@ class C14(Check):
             else:
                 self.gc_probe(R, before,
                               {'examples': xs, 'options': opts, 'seed': 1,
-                               'pre': 'random.seed(%d)' % pre},
-                              'seeded-state-later')
+                               'pre': 'random.seed(%d)' % pre,
+                               'as_object': holder is not None},
+                              'seeded-state-later', holder)
         if seeded[0] != seeded[1]:
             R.out('differs:seeded')
             R.viol('seeded-unsampled:result:%s' % sh,
                    'seeded-result-reproducible',
                    {'examples': xs, 'options': opts, 'seed': 1,
                     'after random.seed(100)': seeded[0],
-                    'after random.seed(200)': seeded[1]}, 'seeded')
+                    'after random.seed(200), as_object=True': seeded[1]},
+                   'seeded')
         return R
 
     def arg_forms(self, xs, v, extra, counts):
